@@ -46,6 +46,8 @@ pub struct Rule {
     pub callf: AtomicPtr<()>,
     /// Optional filter on the `a` argument of the point (usize::MAX = none).
     pub a_filter: AtomicUsize,
+    /// RAISE/CALL/PAUSE: stop firing after this many firings (0 = unlimited).
+    pub budget: AtomicU64,
 }
 
 #[allow(clippy::declare_interior_mutable_const)]
@@ -62,6 +64,7 @@ const RULE0: Rule = Rule {
     arg2: AtomicUsize::new(0),
     callf: AtomicPtr::new(std::ptr::null_mut()),
     a_filter: AtomicUsize::new(usize::MAX),
+    budget: AtomicU64::new(0),
 };
 pub static RULES: [Rule; MAX_SITES] = [RULE0; MAX_SITES];
 
@@ -190,6 +193,7 @@ pub struct RuleSpec {
     pub arg2: usize,
     pub callf: Option<CallFn>,
     pub a_filter: usize,
+    pub budget: u64,
 }
 
 impl Default for RuleSpec {
@@ -205,6 +209,7 @@ impl Default for RuleSpec {
             arg2: 0,
             callf: None,
             a_filter: usize::MAX,
+            budget: 0,
         }
     }
 }
@@ -223,6 +228,7 @@ pub fn set_rule(site: u32, s: RuleSpec) {
     r.arg2.store(s.arg2, Ordering::SeqCst);
     r.callf.store(s.callf.map(|f| f as *mut ()).unwrap_or(std::ptr::null_mut()), Ordering::SeqCst);
     r.a_filter.store(s.a_filter, Ordering::SeqCst);
+    r.budget.store(s.budget, Ordering::SeqCst);
     r.mode.store(s.mode, Ordering::SeqCst);
 }
 
@@ -393,6 +399,10 @@ fn apply(r: &Rule, m: u32, s: u32, a: usize, b: usize) {
             if nth != 0 && arr != nth {
                 return;
             }
+            let budget = r.budget.load(Ordering::Relaxed);
+            if budget != 0 && r.fired.load(Ordering::SeqCst) >= budget {
+                return;
+            }
             match m {
                 mode::PAUSE => {
                     let g = r.arg.load(Ordering::Relaxed) % MAX_GATES;
@@ -414,7 +424,7 @@ fn apply(r: &Rule, m: u32, s: u32, a: usize, b: usize) {
                 }
                 mode::RAISE => {
                     let sig = r.arg.load(Ordering::Relaxed) as libc::c_int;
-                    let seq = RAISE_SEQ.fetch_add(1, Ordering::SeqCst);
+                    let seq = crate::pool::SEQ.fetch_add(1, Ordering::SeqCst);
                     IN_ACTION.with(|i| i.set(i.get() + 1));
                     evlog::log(evlog::kind::SEND, sig as u64, seq);
                     let rc = crate::sig::queue_self(sig, seq as usize);
